@@ -2,6 +2,7 @@ package props
 
 import (
 	"go/ast"
+	"go/token"
 	"go/types"
 
 	"fmt"
@@ -18,8 +19,8 @@ func init() {
 	register(&Property{
 		ID:          "C11",
 		Technique:   "static analysis: registry-resolved command tables; argument-count abstract interpretation by exhaustive enumeration of len(cmd.Args) over the labelled CFGs of the leader-side check and the apply handler (with concrete unrolling of step loops); non-negativity dataflow from parsed client integers to slice bounds; typestate of values returned together with an error; ORDER rules on batch abort and recover",
-		Explanation: "Decides: (A1) for every registered write command, every argument count that the leader-side handler lets through to the propose call is safe for the apply handler of the same name and the module functions it hands the arguments to: no index or slice of cmd.Args can be out of range (decided for each count 0..31 and for large even/odd counts, loops over the arguments unrolled concretely), including ApplyRaftRequest's own cmd.Args[0]/[1]; (A2) every proposable command name has an apply handler; (A3) a handler error reaches the batch abort, and a value returned together with an error is never stored unchecked; (A4) the connection path recovers from panics; (A5) an integer parsed from a client argument on the apply path cannot reach a slice bound, index or allocation size while possibly negative. A5 also covers (i) size tests that add to the client integer before comparing (the sum wraps around for a huge value: found and fixed in SETRANGE) and (ii) stored values decoded with constant offsets: a small length analysis (requirement computed from the decoder, lower bound at each call from the dominating len() tests and re-slicings) for newHLLItemFromDBBytes.",
-		NotDecided:  "upper-bound index panics that depend on relations between values, nil dereferences, panics inside engines and third-party parsers, arithmetic overflow, size limits, the effect on the next command beyond the batch-abort order, read and merge commands (their panics are recovered on the connection path).",
+		Explanation: "Decides: (A1) for every registered write command, every argument count that the leader-side handler lets through to the propose call is safe for the apply handler of the same name and the module functions it hands the arguments to: no index or slice of cmd.Args can be out of range (decided for each count 0..31 and for large even/odd counts, loops over the arguments unrolled concretely), including ApplyRaftRequest's own cmd.Args[0]/[1]; (A2) every proposable command name has an apply handler; (A3) a handler error reaches the batch abort, and a value returned together with an error is never stored unchecked; (A4) the connection path recovers from panics; (A5) an integer parsed from a client argument on the apply path cannot reach a slice bound, index or allocation size while possibly negative. A5 also covers (i) size tests that add to the client integer before comparing (the sum wraps around for a huge value: found and fixed in SETRANGE) and (ii) stored values decoded with constant offsets: a small length analysis (requirement computed from the decoder, lower bound at each call from the dominating len() tests and re-slicings) for newHLLItemFromDBBytes. A2 also requires that every option look-ahead S[i+k] of an option parser in packages node and server (a function that dispatches on strings.ToLower(string(S[i]))) is guarded by i+k < len(S) on its path.",
+		NotDecided:  "upper-bound index panics that depend on relations between values, nil dereferences, panics inside engines and third-party parsers, arithmetic overflow, size limits, the effect on the next command beyond the batch-abort order, other read and merge commands (the option parsers of the scan and merged commands are covered by the look-ahead rule of A2 because their goroutines are not under the connection recover()).",
 		Assumptions: []string{"argument counts >= 32 behave like the representatives 40 (even) and 41 (odd)", "a branch whose condition does not depend on the argument count alone may go either way", "commands reach the apply handler with the argument vector the leader proposed (rebuildFirstKeyAndPropose rewrites only Args[1])"},
 		Run:         runC11,
 	})
@@ -543,4 +544,97 @@ func c11A4(c *Ctx) {
 	if u := c.unit("C11-A4", "node.(*kvStoreSM).ApplyRaftRequest"); u != nil {
 		r.Guard("C11-A4", u, an.Call("builtin.panic"), "node.isUnrecoveryError(_)", an.GuardOpts{Min: 1})
 	}
+}
+
+func init() {
+	old := registry["C11"].Run
+	registry["C11"].Run = func(c *Ctx) { old(c); c11Lookahead(c) }
+}
+
+// c11Lookahead: option parsers walk an argument list and, on an option name (strings.ToLower(string(S[i])) compared or
+// switched on), read the option's value at S[i+1]. The value may be missing: every such look-ahead is guarded by
+// i+1 < len(S) on its path. Scan and merged commands are parsed in goroutines that no recover() protects, so an
+// out-of-range index there takes the process down.
+func c11Lookahead(c *Ctx) {
+	r := c.R
+	n := 0
+	for _, fn := range c.P.Funcs() {
+		pk := load.ShortPkg(fn.Pkg.PkgPath)
+		if (pk != "node" && pk != "server") || fn.Decl.Body == nil || strings.HasSuffix(c.P.Fset.Position(fn.Decl.Pos()).Filename, "_test.go") {
+			continue
+		}
+		info := fn.Pkg.TypesInfo
+		// slices whose element at a loop index is used as an option name
+		optSlices := map[string]bool{}
+		ast.Inspect(fn.Decl.Body, func(nd ast.Node) bool {
+			call, ok := nd.(*ast.CallExpr)
+			if !ok || len(call.Args) != 1 {
+				return true
+			}
+			if f, ok := typeutil.Callee(info, call).(*types.Func); !ok || f.FullName() != "strings.ToLower" {
+				return true
+			}
+			conv, ok := ast.Unparen(call.Args[0]).(*ast.CallExpr)
+			if !ok || len(conv.Args) != 1 {
+				return true
+			}
+			if ix, ok := ast.Unparen(conv.Args[0]).(*ast.IndexExpr); ok {
+				if _, isId := ast.Unparen(ix.Index).(*ast.Ident); isId {
+					optSlices[types.ExprString(ix.X)+"#"+types.ExprString(ix.Index)] = true
+				}
+			}
+			return true
+		})
+		if len(optSlices) == 0 {
+			continue
+		}
+		u, err := c.W.Unit(fn.Name)
+		if err != nil {
+			continue
+		}
+		for _, uu := range append([]*an.Unit{u}, u.Lits()...) {
+			for _, b := range uu.G.Blocks {
+				if !b.Reachable() {
+					continue
+				}
+				for i, node := range b.Nodes {
+					root := ast.Node(node)
+					if rh, ok := node.(*flow.RangeHead); ok {
+						root = rh.Stmt.X
+					}
+					ast.Inspect(root, func(m ast.Node) bool {
+						if _, isLit := m.(*ast.FuncLit); isLit {
+							return false
+						}
+						ix, ok := m.(*ast.IndexExpr)
+						if !ok {
+							return true
+						}
+						be, ok := ast.Unparen(ix.Index).(*ast.BinaryExpr)
+						if !ok || be.Op != token.ADD {
+							return true
+						}
+						iv, isId := ast.Unparen(be.X).(*ast.Ident)
+						k, isC := info.Types[be.Y]
+						if !isId || !isC || k.Value == nil {
+							return true
+						}
+						if !optSlices[types.ExprString(ix.X)+"#"+iv.Name] {
+							return true
+						}
+						n++
+						site := &flow.Site{Kind: flow.SUse, Block: b, NodeIdx: i, Pos: ix.Pos(), Ctx: flow.True()}
+						sl, idx := uu.C.Term(ix.X), uu.C.Term(ix.Index)
+						goal := c.W.Parse(idx + " < len(" + sl + ")")
+						pc := uu.SitePC(site)
+						res := flow.Implies(pc, goal)
+						r.Check("C11-A2", fmt.Sprintf("%s: the option value %s[%s] is read only when it exists", fn.Name, sl, idx), uu.Pos(ix.Pos()), res.Holds,
+							"no guard "+idx+" < len("+sl+") on the path: an option name without its value indexes out of range; pc = "+clipS(pc.String(), 300))
+						return true
+					})
+				}
+			}
+		}
+	}
+	r.Min("C11-A2", n, 4, "option look-ahead reads in packages node and server")
 }
